@@ -13,6 +13,7 @@
    [legacy]: none).  Spec/AuthSpec.v is the DBus specification's server state
    machine with the property's closing rules. *)
 From Tx Require Import Lib.Base Model.AuthText Model.AuthServer Spec.AuthSpec Proofs.AuthProofs.
+From Tx Require Model.Framing Spec.FramingSpec Proofs.AuthFramingBridge.
 From Tx Require Gen.Generated.
 Local Open Scope N_scope.
 
@@ -65,12 +66,8 @@ Proof. exact follows_spec. Qed.
    16384 + 1 bytes without \r\n can no longer become an acceptable line and
    disconnect; exactly 16385 may still be a maximal line and the \r of its
    delimiter).  That the result does not depend on how the stream is cut into
-   reads is C04's theorem for this line layer (Props/C04.v
-   C04_partition_independent, for any authenticator step function and any
-   limit); here the harness runs every case under several cuttings, including a
-   16384-byte line cut between its \r and \n and a 16385-byte remainder, which
-   behaved differently before repair D32 (legacy flag fx32 = false: the bound on
-   the remainder was 16384). *)
+   reads is C06_cut_independent below; with it this theorem speaks about every
+   partition of the stream whose first read is not empty. *)
 Theorem C06_follows_spec_stream :
   forall (mechs : list bytes) (guid : bytes) (script : list verdict) (stream : bytes),
     stream <> [] -> Forall well_typed script ->
@@ -78,6 +75,79 @@ Theorem C06_follows_spec_stream :
     map abs_out (run_reads current oracle_if mechs guid script [stream]) =
     spec_stream mechs guid false 5%nat 16384 script stream.
 Proof. exact follows_spec_stream. Qed.
+
+(* ----- independence of the cutting into reads ----------------------------------
+   protocol.py's dataReceived is modelled twice: here with the BusAuthenticator
+   built in (Model/AuthServer.v recv), and in Model/Framing.v for an arbitrary
+   authenticator (C04).  [bus_astep] is the BusAuthenticator model as Framing's
+   authenticator parameter (one step = handle on one complete line; result
+   AContinue / ADone = authenticationSucceeded() / AFail =
+   DBusAuthenticationFailed / ACrash = another exception).  Framing's events
+   are Line l (handleAuthMessage(l) was called), AuthOk, Close, Crash, Msg; what
+   the authenticator wrote is recovered by [replay], which runs handle over the
+   Line events again and maps AuthOk -> OAuthd, Close -> OClose, Crash -> OCrash,
+   Msg -> nothing.  The refinement holds for EVERY sequence of reads, every
+   mechanism implementation and every repair set carrying D32 (the bound on the
+   unfinished line Framing's current model has), with no side condition: an
+   empty first read is an exception in both models; after Close or an exception
+   Framing's transport delivers nothing where the C06 model delivers to a
+   connection that ignores it; after authentication the C06 model observes
+   nothing and Framing produces messages only. *)
+Theorem C06_framing_bridge :
+  forall (M : Type) (F : fixes) (I : mech_if M) (mechs : list bytes) (guid : bytes),
+    fx32 F = true ->
+    forall (w : M) (reads : list bytes),
+      run_reads F I mechs guid w reads =
+      snd (AuthFramingBridge.replay F I mechs guid (init_auth w)
+             (fst (Framing.run (AuthFramingBridge.bus_astep F I mechs guid) MAX_AUTH false
+                               (init_auth w) reads))).
+Proof. exact (@AuthFramingBridge.bridge). Qed.
+
+(* Hence, with C04's partition theorem (Props/C04.v C04_any_two_partitions; used
+   through FramingProofs.any_two_partitions, which it restates): for every
+   mechanism implementation and every byte stream, two partitions into reads
+   (the first read of each not empty - the reactor never delivers an empty
+   read) make the bus write the same lines, consult the mechanisms alike, and
+   close, authenticate or fail identically. *)
+Theorem C06_cut_independent :
+  forall (M : Type) (F : fixes) (I : mech_if M) (mechs : list bytes) (guid : bytes),
+    fx32 F = true ->
+    forall (w : M) (reads1 reads2 : list bytes),
+      FramingSpec.first_read_nonempty reads1 -> FramingSpec.first_read_nonempty reads2 ->
+      concat reads1 = concat reads2 ->
+      run_reads F I mechs guid w reads1 = run_reads F I mechs guid w reads2.
+Proof. exact (@AuthFramingBridge.cut_independent). Qed.
+
+(* Together with C06_follows_spec_stream: for EVERY partition of the stream into
+   reads (first read not empty) the bus, with scripted mechanisms, does what
+   the specification prescribes for the whole stream. *)
+Theorem C06_follows_spec_any_partition :
+  forall (mechs : list bytes) (guid : bytes) (script : list verdict) (reads : list bytes),
+    FramingSpec.first_read_nonempty reads -> concat reads <> [] ->
+    Forall well_typed script ->
+    Forall (fun l => all_ascii (fst (cut_space l)) = true)
+           (removelast (split_crlf (tl (concat reads)))) ->
+    map abs_out (run_reads current oracle_if mechs guid script reads) =
+    spec_stream mechs guid false 5%nat 16384 script (concat reads).
+Proof. exact AuthFramingBridge.follows_spec_any_partition. Qed.
+
+(* Non-vacuity: NUL "AUTH ANONYMOUS" / a line of exactly 16384 bytes / "BEGIN",
+   in one read, and cut into 19 reads (the first line byte by byte, then a cut
+   between the long line's \r and \n): the same four events, ending
+   authenticated.  Without D32 the second cutting closed the connection instead
+   (the hypothesis fx32 F = true is needed). *)
+Example C06_cut_instance :
+  FramingSpec.first_read_nonempty AuthFramingBridge.ex_cut /\
+  concat AuthFramingBridge.ex_cut = AuthFramingBridge.ex_stream /\
+  N.of_nat (length AuthFramingBridge.ex_long) = MAX_AUTH /\
+  length AuthFramingBridge.ex_cut = 19%nat /\
+  let want := [OMech n_ANONYMOUS VOk; OLine (sp w_OK [103]); OLine l_ERROR_unknown; OAuthd] in
+  run_reads current oracle_if [n_ANONYMOUS] [103] [VOk] [AuthFramingBridge.ex_stream] = want /\
+  run_reads current oracle_if [n_ANONYMOUS] [103] [VOk] AuthFramingBridge.ex_cut = want /\
+  run_reads AuthFramingBridge.before_D32 oracle_if [n_ANONYMOUS] [103] [VOk] [AuthFramingBridge.ex_stream] = want /\
+  run_reads AuthFramingBridge.before_D32 oracle_if [n_ANONYMOUS] [103] [VOk] AuthFramingBridge.ex_cut =
+    [OMech n_ANONYMOUS VOk; OLine (sp w_OK [103]); OClose].
+Proof. exact AuthFramingBridge.ex_cut_facts. Qed.
 
 (* ----- closing ---------------------------------------------------------------
    For every implementation of the mechanisms: BEGIN out of turn, a first byte
